@@ -38,8 +38,20 @@ def verify(qual, timeout_ms=20000, verbose=False):
         for o in os_:
             if z3.is_true(z3.simplify(o.goal)):
                 continue
-            v, m, dt, w = check_one(o.hyps, o.goal, bg, timeout_ms)
-            secs += dt
+            v, dt = 'unknown', 0.0
+            keep = c.hints.get(o.info.get('clause')) or c.hints.get('*')
+            if keep is not None:
+                # proof hint: first try with the labelled hypotheses restricted to the named clauses
+                # (dropping hypotheses is always sound)
+                hy = [h for h in o.hyps if eng.labels.get(h.get_id()) is None or eng.labels[h.get_id()] in keep
+                      or eng.labels[h.get_id()] == o.info.get('clause')]
+                v, m, dt, w = check_one(hy, o.goal, bg, min(timeout_ms, 8000))
+                secs += dt
+                if v == 'sat':
+                    v = 'unknown'   # a model of a weakened VC means nothing
+            if v != 'proved':
+                v, m, dt, w = check_one(o.hyps, o.goal, bg, timeout_ms)
+                secs += dt
             if v != 'proved':
                 verdict, why, model = v, w, m
                 if v == 'sat':
